@@ -771,10 +771,22 @@ class Element(object):
         return self._parent
 
     def _set_parent(self, parent):
+        old_parent = getattr(self, '_parent', None)
         self._parent = parent
         if parent is not None:
             self.traversal_parent = None
-            self.parent.add(self)
+            try:
+                self.parent.add(self)
+            except Exception:
+                # refused by the new parent: the element stays where it was
+                self._parent = old_parent
+                raise
+            if old_parent is not None and old_parent is not parent:
+                # the element has been moved: it cannot be a child of both parents
+                try:
+                    old_parent.children.remove(self)
+                except ValueError:
+                    pass
 
     parent = property(_get_parent, _set_parent,
                       doc="The parent :class:`Element <hl7apy.core.Element>` of this one")
